@@ -453,13 +453,16 @@ def check_index_dtypes(ctx):
     rng = ctx.rng
     block = arim.Material(6300.0, 3100.0, density=2700.0, state_of_matter="solid")
     for dtype_idx, (n, p) in [(np.int16, (182, 181)), (np.int16, (40, 30)), (np.int32, (200, 170)), (np.int64, (50, 60)), (np.int8, (12, 11))]:
-        for nmid in (None, 3):
+        for nmid in (None, 3, (3, 11)):
             A = g.Points(np.c_[np.linspace(-0.02, 0.02, n), np.zeros(n), np.zeros(n)], "A")
             B = g.Points(np.c_[rng.uniform(-0.02, 0.02, p), np.zeros(p), rng.uniform(0.01, 0.03, p)], "B")
-            sets = [A, B] if nmid is None else [A, g.Points(np.c_[rng.uniform(-0.01, 0.01, nmid), np.zeros(nmid), np.full(nmid, 0.005)], "M"), B]
+            mids = [] if nmid is None else ([nmid] if isinstance(nmid, int) else list(nmid))
+            if len(mids) == 2 and n * p > 3000:
+                continue
+            sets = [A] + [g.Points(np.c_[rng.uniform(-0.01, 0.01, m_), np.zeros(m_), np.full(m_, 0.003 * (q_ + 1))], f"M{q_}") for q_, m_ in enumerate(mids)] + [B]
             fp = ray.FermatPath(tuple(x for k, s_ in enumerate(sets) for x in ((s_,) if k == 0 else (block.longitudinal_vel if k % 2 else block.transverse_vel, s_))))
-            cj = {"op": "index_dtype", "dtype_indices": np.dtype(dtype_idx).name, "n": n, "p": p, "interior_points": nmid}
-            ctx.case(("idxdtype", np.dtype(dtype_idx).name, n, p, nmid), True)
+            cj = {"op": "index_dtype", "dtype_indices": np.dtype(dtype_idx).name, "n": n, "p": p, "interior_points": mids}
+            ctx.case(("idxdtype", np.dtype(dtype_idx).name, n, p, tuple(mids)), True)
             ctx.count("index_dtype:" + np.dtype(dtype_idx).name)
             try:
                 rays = ray.FermatSolver((fp,), dtype_indices=dtype_idx).solve()[fp]
@@ -474,14 +477,21 @@ def check_index_dtypes(ctx):
                 continue
             # the reported points realise the reported time (and it is the minimum over the interior set)
             pts = [s_.coords for s_ in sets]
-            vs = [block.longitudinal_vel, block.transverse_vel][: len(sets) - 1]
+            vs = [block.longitudinal_vel if k % 2 == 0 else block.transverse_vel for k in range(len(sets) - 1)]
             tot = np.zeros((n, p))
             for k in range(len(sets) - 1):
                 a_, b_ = pts[k][ix[k]], pts[k + 1][ix[k + 1]]
                 tot += np.sqrt(((a_ - b_) ** 2).sum(axis=-1)) / vs[k]
             if not np.allclose(tot, rays.times, rtol=1e-12, atol=0):
                 ctx.violate(f"the reported points do not realise the reported times (dtype_indices={np.dtype(dtype_idx).name}, {n * p} rays)", cj, {"kind": "index_layout"})
-            if nmid is not None:
+            if len(mids) == 2:
+                leg = lambda a_, b_, v_: np.sqrt(((a_[:, None] - b_[None, :]) ** 2).sum(-1)) / v_
+                t01, t12, t23 = leg(pts[0], pts[1], vs[0]), leg(pts[1], pts[2], vs[1]), leg(pts[2], pts[3], vs[2])
+                best = (t01[:, :, None, None] + t12[None, :, :, None] + t23[None, None, :, :]).min(axis=(1, 2))
+                if not np.allclose(best, rays.times, rtol=1e-12, atol=0):
+                    ctx.violate(f"times are not the minimum over the interior points (dtype_indices={np.dtype(dtype_idx).name}, two interior sets)", cj, {"kind": "index_dtype"})
+            elif len(mids) == 1:
+                nmid = mids[0]
                 best = np.min([np.sqrt(((pts[0][:, None] - pts[1][m_][None, None]) ** 2).sum(-1)) / vs[0] + np.sqrt(((pts[1][m_][None, None] - pts[2][None, :]) ** 2).sum(-1)) / vs[1]
                                for m_ in range(nmid)], axis=0)
                 if not np.allclose(best, rays.times, rtol=1e-12, atol=0):
